@@ -481,41 +481,203 @@ def gen_person(rng):
             'orcid': rng.choice([None, orcid(rng)]), 'role': role, 'corresponding': rng.random() < 0.35}
 
 
+CALL_KINDS = ['authors', 'reducers', 'beamline', 'powder', 'calib']
+
+
+def gen_call(rng, k, small=False):
+    """one `with_*` call of the high-level builder (small: short lists, for histories over many builders)"""
+    if k == 'authors':
+        return {'c': 'authors', 'persons': [gen_person(rng) for _ in range(rng.randint(1, 2 if small else 4))]}
+    if k == 'reducers':
+        return {'c': 'reducers', 'list': [rng.choice(['scippneutron 24.6.1', 'test-package', 'mantid 6.9', gen_string(rng)])
+                                          for _ in range(rng.randint(1, 2 if small else 3))]}
+    if k == 'beamline':
+        fac = rng.choice([None] + FACILITIES + [gen_string(rng)])
+        return {'c': 'beamline', 'name': rng.choice(['fake', 'DREAM', 'b l', gen_string(rng)]), 'facility': fac,
+                'source': rng.choice([None, None, 0, 1, 2]), 'comment': gen_comment(rng)}
+    if k == 'powder':
+        n = rng.choice([1, 2, 3]) if small else rng.choice([1, 2, 3, 5, rng.randint(1, 50)])
+        coord = sorted(abs(gen_float(rng)) % 1e6 for _ in range(n))
+        data = [gen_float(rng) for _ in range(n)]
+        data = [d if abs(d) < 1e200 else 1.0 for d in data]
+        return {'c': 'powder', 'dim': rng.choice(['tof', 'dspacing']),
+                'name': rng.choice([None, 'intensity_net', 'intensity_norm', 'intensity_total']),
+                'coord': [hx(x) for x in coord],
+                'coord_var': [hx(loguniform(rng, 1e-12, 1e3)) for _ in range(n)] if rng.random() < 0.3 else None,
+                'data': [hx(x) for x in data],
+                'data_var': [hx(rng.choice([0.0, loguniform(rng, 1e-12, 1e6)])) for _ in range(n)]
+                if rng.random() < 0.6 else None,
+                'unit': rng.choice(UNITS), 'comment': gen_comment(rng)}
+    n = rng.randint(1, 3 if small else 5)
+    return {'c': 'calib', 'powers': rng.sample([0, 1, 2, -1, 3, -2, 4, 10, -13], n),
+            'coeffs': [hx(gen_float(rng)) for _ in range(n)],
+            'var': [hx(loguniform(rng, 1e-12, 1e3)) for _ in range(n)] if rng.random() < 0.5 else None,
+            'comment': gen_comment(rng)}
+
+
 def gen_builder(rng):
     calls = []
     for _ in range(rng.randint(0, 5)):
         k = rng.choice(['authors', 'authors', 'reducers', 'beamline', 'powder', 'calib'])
-        if k == 'authors':
-            calls.append({'c': 'authors', 'persons': [gen_person(rng) for _ in range(rng.randint(1, 4))]})
-        elif k == 'reducers':
-            calls.append({'c': 'reducers', 'list': [rng.choice(['scippneutron 24.6.1', 'test-package', 'mantid 6.9', gen_string(rng)])
-                                                    for _ in range(rng.randint(1, 3))]})
-        elif k == 'beamline':
-            fac = rng.choice([None] + FACILITIES + [gen_string(rng)])
-            calls.append({'c': 'beamline', 'name': rng.choice(['fake', 'DREAM', 'b l', gen_string(rng)]), 'facility': fac,
-                          'source': rng.choice([None, None, 0, 1, 2]), 'comment': gen_comment(rng)})
-        elif k == 'powder':
-            n = rng.choice([1, 2, 3, 5, rng.randint(1, 50)])
-            coord = sorted(abs(gen_float(rng)) % 1e6 for _ in range(n))
-            data = [gen_float(rng) for _ in range(n)]
-            data = [d if abs(d) < 1e200 else 1.0 for d in data]
-            calls.append({'c': 'powder', 'dim': rng.choice(['tof', 'dspacing']),
-                          'name': rng.choice([None, 'intensity_net', 'intensity_norm', 'intensity_total']),
-                          'coord': [hx(x) for x in coord],
-                          'coord_var': [hx(loguniform(rng, 1e-12, 1e3)) for _ in range(n)] if rng.random() < 0.3 else None,
-                          'data': [hx(x) for x in data],
-                          'data_var': [hx(rng.choice([0.0, loguniform(rng, 1e-12, 1e6)])) for _ in range(n)]
-                          if rng.random() < 0.6 else None,
-                          'unit': rng.choice(UNITS), 'comment': gen_comment(rng)})
-        else:
-            n = rng.randint(1, 5)
-            calls.append({'c': 'calib', 'powers': rng.sample([0, 1, 2, -1, 3, -2, 4, 10, -13], n),
-                          'coeffs': [hx(gen_float(rng)) for _ in range(n)],
-                          'var': [hx(loguniform(rng, 1e-12, 1e3)) for _ in range(n)] if rng.random() < 0.5 else None,
-                          'comment': gen_comment(rng)})
+        calls.append(gen_call(rng, k))
     return {'kind': 'builder', 'name': rng.choice(['my-data', 'reduced', 'n\xb5', 'x']), 'comment': gen_comment(rng),
             'calls': calls, 'saves': rng.choice([1, 1, 1, 2]),
             'override_comment': gen_comment(rng) if rng.random() < 0.15 else None}
+
+
+FORK_NAMES = ['my-data', 'reduced', 'n\xb5', 'x', 'exp', 'sample-2']
+FORK_SHAPES = ['siblings-same-call', 'siblings-mixed-calls', 'chain-and-branch', 'copy-then-extend', 'deep-tree']
+
+
+def gen_fork(rng, shape=None, kind=None):
+    """a HISTORY over several builders that share ancestors (see tools/harness/c14_impl.py:run_fork): a trunk of 0-2
+    calls, 2-4 branches derived from the trunk's end or from any live builder (each branch 1-2 calls, all combinators,
+    explicit copy()), results that are never saved, dropped references, name/comment setters on one builder, saves
+    interleaved with the derivations and a final round of saves in random order (some builders twice, through
+    CIF.save / save_cif / save_cif with its own comment)."""
+    shape = shape or rng.choice(FORK_SHAPES)
+    kind0 = kind or rng.choice(CALL_KINDS)
+    ops = []
+    live = [0]
+    n_nodes = 1
+    n_saves = 0
+
+    def derive(parent, k):
+        nonlocal n_nodes
+        if k == 'copy':
+            ops.append({'op': 'copy', 'parent': parent})
+        else:
+            ops.append({'op': 'derive', 'parent': parent, 'call': gen_call(rng, k, small=True)})
+        live.append(n_nodes)
+        n_nodes += 1
+        return n_nodes - 1
+
+    def save(node):
+        nonlocal n_saves
+        via = rng.choice(['save', 'save', 'save', 'save_cif', 'override'])
+        op = {'op': 'save', 'node': node, 'via': via}
+        if via == 'override':
+            op['comment'] = gen_comment(rng)
+        ops.append(op)
+        n_saves += 1
+
+    def maybe_between():
+        r = rng.random()
+        if r < 0.22 and n_saves < 3:
+            save(rng.choice(live))
+        elif r < 0.30:
+            n = rng.choice(live)
+            if rng.random() < 0.5:
+                ops.append({'op': 'set_name', 'node': n, 'name': rng.choice(FORK_NAMES + ['renamed', 'r#2'])})
+            else:
+                ops.append({'op': 'set_comment', 'node': n, 'comment': gen_comment(rng)})
+
+    base = 0
+    for _ in range({'siblings-same-call': rng.choice([0, 1]), 'siblings-mixed-calls': rng.choice([0, 1]),
+                    'chain-and-branch': 2, 'copy-then-extend': 1, 'deep-tree': 1}[shape]):
+        base = derive(base, rng.choice(CALL_KINDS))
+        maybe_between()
+    n_branch = rng.choice([2, 2, 3, 4]) if shape != 'deep-tree' else 2
+    for j in range(n_branch):
+        if shape == 'siblings-same-call':
+            parent, k = base, kind0
+        elif shape == 'siblings-mixed-calls':
+            parent, k = base, (kind0 if j == 0 else rng.choice(CALL_KINDS))
+        elif shape == 'copy-then-extend':
+            parent, k = (derive(base, 'copy') if rng.random() < 0.7 else base), rng.choice([kind0, rng.choice(CALL_KINDS)])
+        else:
+            parent, k = rng.choice(live), rng.choice([kind0, rng.choice(CALL_KINDS)])
+        n = derive(parent, k)
+        maybe_between()
+        if rng.random() < (0.7 if shape == 'deep-tree' else 0.3):
+            n2 = derive(n, rng.choice([k, rng.choice(CALL_KINDS)]))
+            if shape == 'deep-tree':
+                derive(n, rng.choice([kind0, rng.choice(CALL_KINDS)]))      # a sibling one level down
+            maybe_between()
+    # forget some builders (their derivation must not have changed anybody else)
+    for n in list(live):
+        if n != base and len(live) > 2 and rng.random() < 0.15:
+            ops.append({'op': 'drop', 'node': n})
+            live.remove(n)
+    final = [n for n in live if n == base or rng.random() < 0.8]
+    final += [n for n in live if rng.random() < 0.2]          # saved twice
+    rng.shuffle(final)
+    for n in final[:6]:
+        save(n)
+    return {'kind': 'fork', 'shape': shape, 'name': rng.choice(FORK_NAMES), 'comment': gen_comment(rng), 'ops': ops}
+
+
+def fork_chains(doc):
+    """what was supplied to each saved builder ALONG ITS OWN CHAIN: one straight-line builder document per save op"""
+    state = [{'name': doc['name'], 'comment': doc.get('comment', ''), 'calls': []}]
+    out = []
+    for op in doc['ops']:
+        o = op['op']
+        if o in ('derive', 'copy'):
+            p = state[op['parent']]
+            state.append({'name': p['name'], 'comment': p['comment'],
+                          'calls': p['calls'] + ([op['call']] if o == 'derive' else [])})
+        elif o == 'set_name':
+            state[op['node']]['name'] = op['name']
+        elif o == 'set_comment':
+            state[op['node']]['comment'] = op['comment']
+        elif o == 'save':
+            st = state[op['node']]
+            out.append({'kind': 'builder', 'name': st['name'], 'comment': st['comment'], 'calls': list(st['calls']),
+                        'saves': 1, 'override_comment': (op.get('comment') or None) if op.get('via') == 'override' else None})
+    return out
+
+
+def fork_profile(doc):
+    """measured features of a history (coverage)"""
+    parents = [op['parent'] for op in doc['ops'] if op['op'] in ('derive', 'copy')]
+    saves = [op['node'] for op in doc['ops'] if op['op'] == 'save']
+    kinds_by_parent = {}
+    for op in doc['ops']:
+        if op['op'] == 'derive':
+            kinds_by_parent.setdefault(op['parent'], []).append(op['call']['c'])
+    feats = set()
+    for p, ks in kinds_by_parent.items():
+        for k in set(ks):
+            if ks.count(k) >= 2:
+                feats.add(f'siblings:{k}+{k}')
+        if len(set(ks)) >= 2:
+            feats.add('siblings:mixed')
+    if any(parents.count(p) >= 2 for p in parents) and any(p in saves for p in parents if parents.count(p) >= 2):
+        feats.add('common-ancestor-saved')
+    if len(saves) != len(set(saves)):
+        feats.add('builder-saved-twice')
+    n_nodes = 1 + len(parents)
+    if any(n not in saves for n in range(1, n_nodes)):
+        feats.add('derived-result-never-saved')
+    if any(op['op'] == 'drop' for op in doc['ops']):
+        feats.add('reference-dropped')
+    if any(op['op'] == 'copy' for op in doc['ops']):
+        feats.add('explicit-copy')
+    if any(op['op'].startswith('set_') for op in doc['ops']):
+        feats.add('setter-on-one-builder')
+    first_save = next((i for i, op in enumerate(doc['ops']) if op['op'] == 'save'), None)
+    last_derive = max((i for i, op in enumerate(doc['ops']) if op['op'] in ('derive', 'copy')), default=-1)
+    if first_save is not None and first_save < last_derive:
+        feats.add('save-between-derivations')
+    if any(op['op'] == 'save' and op.get('via') != 'save' for op in doc['ops']):
+        feats.add('via-save_cif')
+    return feats
+
+
+def systematic_forks():
+    """every combinator as the differing call of two siblings of a common base, base saved before, between and after"""
+    rng = random.Random(1414)
+    out = []
+    for k in CALL_KINDS:
+        ops = [{'op': 'derive', 'parent': 0, 'call': gen_call(rng, 'beamline', small=True)},
+               {'op': 'save', 'node': 1, 'via': 'save'},
+               {'op': 'derive', 'parent': 1, 'call': gen_call(rng, k, small=True)},
+               {'op': 'derive', 'parent': 1, 'call': gen_call(rng, k, small=True)},
+               {'op': 'save', 'node': 3, 'via': 'save'}, {'op': 'save', 'node': 1, 'via': 'save'},
+               {'op': 'save', 'node': 2, 'via': 'save'}, {'op': 'save', 'node': 0, 'via': 'save'}]
+        out.append({'kind': 'fork', 'shape': 'systematic:' + k, 'name': 'exp', 'comment': '', 'ops': ops})
+    return out
 
 
 def single_pair(s, name='b', key='k'):
@@ -612,7 +774,8 @@ def _doc_strings(doc):
                     for _, c in it['columns']:
                         vals += c.get('strs', [])
     else:
-        for c in doc['calls']:
+        calls = doc['calls'] if doc['kind'] == 'builder' else [op['call'] for op in doc['ops'] if op['op'] == 'derive']
+        for c in calls:
             if c['c'] == 'authors':
                 for p in c['persons']:
                     vals += [p[k] for k in ('name', 'address', 'role') if p.get(k)]
@@ -669,30 +832,82 @@ def failure_key(doc, why, failing_classes, label=None):
     return f'{doc["kind"]}:{base}'
 
 
+def _par(jobs):
+    """run the given thunks concurrently (each one compiles its own shards with coqc); results in order"""
+    import threading
+    out = [None] * len(jobs)
+
+    def run(i, job):
+        try:
+            out[i] = job()
+        except Exception as ex:       # reported as a shard error by the caller
+            out[i] = ({}, [('thread', repr(ex))])
+    ts = [threading.Thread(target=run, args=(i, j)) for i, j in enumerate(jobs)]
+    for t in ts:
+        t.start()
+    for t in ts:
+        t.join()
+    return out
+
+
+BLD_FOOT = 'Eval vm_compute in (report (map (check_builder Rimpl core pd version spallation) cases)).\n'
+FORK_WHAT = ('a builder that shares an ancestor with other builders (history of with_* calls on several builders derived '
+             'from a common base) does not write what was supplied along ITS OWN chain of calls, although the same chain '
+             'of calls written as one fluent expression does')
+
+
+def _fork_isolation(ctx, hdr, res, chains):
+    """for failing saves of fork histories: does the SAME chain of calls fail as one straight fluent chain, too?
+    returns {i: reason or None}"""
+    if not chains:
+        return {}
+    r2 = ctx.run_impl('c14_impl.py', {'docs': chains, 'units': UNITS, 'facilities': FACILITIES})
+    terms = [cbuilder(d, r, r2['unit_str']) for d, r in zip(chains, r2['docs'])]
+    fails, errs = ctx.coq_eval_shards(hdr, terms, lambda k: BLD_FOOT, shard=60, prefix='forkiso')
+    if errs:
+        ctx.note('isolation run of failing fork chains did not evaluate: ' + str(errs)[:300])
+    return {i: fails.get(i) for i in range(len(chains))}
+
+
 def correspondence(ctx):
     rng = random.Random(ctx.seed)
     quick = ctx.tier == 'quick'
-    n_low, n_build = (380, 170) if quick else (7000, 2500)
+    n_low, n_build, n_fork = (380, 170, 55) if quick else (7000, 2500, 1200)
     sysd = systematic()
     low = [gen_low(rng, 50 if i % 10 == 0 else 8) for i in range(n_low)]
     bld = [gen_builder(rng) for _ in range(n_build)]
-    docs = [d for _, d, _ in sysd] + low + bld
-    labels = [k for k, _, _ in sysd] + [None] * (len(low) + len(bld))
+    frng = random.Random(ctx.seed * 7919 + 14)
+    forks = systematic_forks() + [gen_fork(frng, shape=FORK_SHAPES[i % len(FORK_SHAPES)],
+                                           kind=CALL_KINDS[(i // len(FORK_SHAPES)) % len(CALL_KINDS)])
+                                  for i in range(n_fork)]
+    docs = [d for _, d, _ in sysd] + low + bld + forks
+    labels = [k for k, _, _ in sysd] + [None] * (len(low) + len(bld) + len(forks))
     res = ctx.run_impl('c14_impl.py', {'docs': docs, 'units': UNITS, 'facilities': FACILITIES})
     core, pd = res['core'], res['pd']
     low_idx = [i for i, d in enumerate(docs) if d['kind'] == 'low']
     bld_idx = [i for i, d in enumerate(docs) if d['kind'] == 'builder']
+    fork_idx = [i for i, d in enumerate(docs) if d['kind'] == 'fork']
     hdr = header(res, tie=os.path.exists(os.path.join(ctx.build, 'Tie.vo')))
     low_terms = [clow(docs[i], res['docs'][i], core, pd) for i in low_idx]
     bld_terms = [cbuilder(docs[i], res['docs'][i], res['unit_str']) for i in bld_idx]
+    # fork histories: one builder case per save op = (that builder's own chain of calls, the text of that save)
+    fork_cases = []                    # (doc index, save number, chain doc, observation)
+    for i in fork_idx:
+        chains = fork_chains(docs[i])
+        obs = res['docs'][i].get('saves') if isinstance(res['docs'][i], dict) else None
+        if obs is None or len(obs) != len(chains):
+            obs = [{'error': res['docs'][i].get('error', 'HarnessError'), 'msg': res['docs'][i].get('msg', '')}] * len(chains)
+        for j, (ch, o) in enumerate(zip(chains, obs)):
+            fork_cases.append((i, j, ch, o))
+    fork_terms = [cbuilder(ch, o, res['unit_str']) for _, _, ch, o in fork_cases]
     shard = 60
-    fails_low, err1 = ctx.coq_eval_shards(
-        hdr, low_terms, lambda k: 'Eval vm_compute in (report (map (check_case Rimpl core) cases)).\n',
-        shard=shard, prefix='low')
-    fails_bld, err2 = ctx.coq_eval_shards(
-        hdr, bld_terms, lambda k: 'Eval vm_compute in (report (map (check_builder Rimpl core pd version spallation) cases)).\n',
-        shard=shard, prefix='bld')
-    for name, e in err1 + err2:
+    (fails_low, err1), (fails_bld, err2), (fails_fork, err3) = _par([
+        lambda: ctx.coq_eval_shards(
+            hdr, low_terms, lambda k: 'Eval vm_compute in (report (map (check_case Rimpl core) cases)).\n',
+            shard=shard, prefix='low'),
+        lambda: ctx.coq_eval_shards(hdr, bld_terms, lambda k: BLD_FOOT, shard=shard, prefix='bld'),
+        lambda: ctx.coq_eval_shards(hdr, fork_terms, lambda k: BLD_FOOT, shard=shard, prefix='fork')])
+    for name, e in err1 + err2 + err3:
         ctx.violation('corr-shard-error', f'correspondence shard {name} did not evaluate: {e[:400]}',
                       {'shard': name, 'error': e}, found_input=False)
     fails = {low_idx[i]: w for i, w in fails_low.items()}
@@ -720,6 +935,31 @@ def correspondence(ctx):
                    else f'could not be produced ({r.get("error")}: {r.get("msg", "")[:120]})')
                 + f' [{why}]' + (f' value={sysd[i][2]!r}' if i < len(sysd) and sysd[i][2] else ''))
         ctx.violation(key, what, {'doc': d, 'reason': why, 'written': r})
+    # failing saves of fork histories: a failure that the same chain shows as ONE fluent expression belongs to the
+    # chain's own class (quoting, numbers, ...); otherwise it is a failure of the history (shared state between builders)
+    fork_fail = sorted(fails_fork.items())
+    iso = _fork_isolation(ctx, hdr, res, [fork_cases[n][2] for n, _ in fork_fail[:60]])
+    for m, (n, why) in enumerate(fork_fail):
+        i, j, ch, o = fork_cases[n]
+        base = why.split(':')[0]
+        alone = iso.get(m)
+        if m in iso and alone is not None and alone.split(':')[0] == base:
+            key = failure_key(ch, why, failing_classes, None)
+            what = (f'{key}: the text written by the real package '
+                    + ('is not read back by the independent CIF 1.1 parser as the supplied content' if 'text' in o
+                       else f'could not be produced ({o.get("error")}: {o.get("msg", "")[:120]})') + f' [{why}]')
+            rep = {'doc': ch, 'reason': why, 'written': o}
+        else:
+            key = f'fork:{base}'
+            what = f'{key}: {FORK_WHAT} [save #{j} of the history: {why}]'
+            rep = {'doc': docs[i], 'save': j, 'chain': ch, 'reason': why, 'written': o}
+        per_key.setdefault(key, []).append(i)
+        if key == 'model:text-differs-from-model':
+            ctx.violation(key, 'the text written by the real package parses back to the supplied content but differs from the '
+                               'text of the model writer (Writer.v) — the proofs no longer cover this source', rep,
+                          found_input=False)
+        else:
+            ctx.violation(key, what, rep)
     # statistics: how many documents lie in the domain of the theorem for the detected rule
     in_dom = _domain_stats(ctx, hdr, len(low_terms), len(bld_terms), shard)
     strings = [s for d in docs for s in _doc_strings(d)]
@@ -727,25 +967,40 @@ def correspondence(ctx):
     for s in strings:
         by_class[classify(s)] = by_class.get(classify(s), 0) + 1
     distinct = len({json.dumps(d, sort_keys=True) for d, r in zip(docs, res['docs']) if 'text' in r})
+    distinct += len({json.dumps([docs[i], j], sort_keys=True) for i, j, _, o in fork_cases if 'text' in o})
+    fork_feats = {}
+    for i in fork_idx:
+        for ft in fork_profile(docs[i]):
+            fork_feats[ft] = fork_feats.get(ft, 0) + 1
     samples = []
     for i in (0, 1, len(sysd) + 1, len(sysd) + len(low) + 1, len(docs) - 1):
         if i < len(docs):
-            samples.append({'doc': docs[i], 'written': res['docs'][i], 'agreement': i not in fails})
+            samples.append({'doc': docs[i], 'written': res['docs'][i], 'agreement': i not in fails and
+                            not any(fork_cases[n][0] == i for n in fails_fork)})
     ctx.coverage.update({
-        'evaluations': len(docs) + len(getattr(ctx, '_c14_corpus', ([], []))[0]),
+        'evaluations': len(docs) - len(forks) + len(fork_cases) + len(getattr(ctx, '_c14_corpus', ([], []))[0]),
         'distinct_nontrivial': distinct,
         'rule': 'documents = systematic single-value probes (every exemplar of every input class as a pair and in loop '
                 'columns, structural probes) + random low-level documents (1-3 blocks, chunks of 1-5 pairs, loops 1..50 x 1..6, '
                 'comments incl. multi-line, schemas) + random builder call sequences (authors with/without roles and corresponding '
-                'flag, reducers, beamline, powder data, calibration; save once or twice); strings drawn from a grammar biased to '
+                'flag, reducers, beamline, powder data, calibration; save once or twice) + FORK HISTORIES over several builders '
+                'derived from common ancestors (trunk of 0-2 calls, 2-4 branches from the same base or from any live builder with '
+                'every combinator as the differing call, explicit copy(), results never saved, dropped references, name/comment '
+                'setters on one builder, saves between derivations and a final round in random order, some builders twice, via '
+                'CIF.save / save_cif / save_cif with its own comment; every save is one evaluation: the text must parse back to '
+                'the content supplied along that builder\'s own chain); strings drawn from a grammar biased to '
                 'leading _ # $ ; [ ] quotes, TAB/LF, quote+blank, CIF keywords, ? ., empty, non-ASCII; non-trivial = the package '
-                'wrote a file (not an exception); distinct = distinct documents; plus the boundary corpus for the quoting rule',
+                'wrote a file (not an exception); distinct = distinct documents / (history, save) pairs; plus the boundary corpus '
+                'for the quoting rule',
         'samples': samples[:5],
-        'documents': {'systematic': len(sysd), 'low_level': len(low), 'builder': len(bld)},
+        'documents': {'systematic': len(sysd), 'low_level': len(low), 'builder': len(bld), 'fork_histories': len(forks),
+                      'fork_saves': len(fork_cases)},
+        'fork_history_features': fork_feats,
+        'fork_shapes': {sh: sum(1 for f in forks if f.get('shape') == sh) for sh in sorted({f.get('shape') for f in forks})},
         'string_values_by_class': by_class,
         'string_values': len(strings),
         'in_theorem_domain': in_dom,
-        'disagreements': len(fails),
+        'disagreements': len(fails) + len(fails_fork),
         'disagreement_keys': {k: len(v) for k, v in per_key.items()},
         'detected_rule': in_dom.get('rule') if isinstance(in_dom, dict) else None,
         'scippneutron_version': res.get('version'), 'scipp_version': res.get('scipp'),
@@ -804,6 +1059,51 @@ def search(ctx, broken):
         ctx.violation(key, f'{key}: value {s!r} written by the real package is not read back [{why}]',
                       {'doc': docs[i], 'reason': why, 'written': res['docs'][i]})
         out.append(docs[i])
+    if out:
+        return out
+    # builder level: more call sequences and more histories over builders with common ancestors (other seed, every
+    # shape x every combinator), the property statement evaluated per save: parse back = that builder's own chain
+    n_b, n_f = (150, 200) if ctx.tier == 'quick' else (600, 1500)
+    blds = [gen_builder(rng) for _ in range(n_b)]
+    forks = systematic_forks() + [gen_fork(rng, shape=FORK_SHAPES[i % len(FORK_SHAPES)],
+                                           kind=CALL_KINDS[(i // len(FORK_SHAPES)) % len(CALL_KINDS)]) for i in range(n_f)]
+    res = ctx.run_impl('c14_impl.py', {'docs': blds + forks, 'units': UNITS, 'facilities': FACILITIES})
+    cases = [(d, None, d, r) for d, r in zip(blds, res['docs'][:len(blds)])]
+    for d, r in zip(forks, res['docs'][len(blds):]):
+        chains = fork_chains(d)
+        obs = r.get('saves') or []
+        if len(obs) != len(chains):
+            obs = [{'error': r.get('error', 'HarnessError'), 'msg': r.get('msg', '')}] * len(chains)
+        cases += [(d, j, ch, o) for j, (ch, o) in enumerate(zip(chains, obs))]
+    terms = [cbuilder(ch, o, res['unit_str']) for _, _, ch, o in cases]
+    hdr = header(res, tie=False)
+    fails, errs = ctx.coq_eval_shards(
+        hdr, terms, lambda k: 'Eval vm_compute in (report (map (check_builder Rfixed core pd version spallation) cases)).\n',
+        shard=60, prefix='searchb')
+    fails = {i: w for i, w in fails.items() if not w.startswith('text-differs-from-model')}
+    fork_fail = [(i, w) for i, w in sorted(fails.items()) if cases[i][1] is not None]
+    iso = {}
+    if fork_fail:
+        chains = [cases[i][2] for i, _ in fork_fail[:60]]
+        r2 = ctx.run_impl('c14_impl.py', {'docs': chains, 'units': UNITS, 'facilities': FACILITIES})
+        f2, _ = ctx.coq_eval_shards(
+            hdr, [cbuilder(d, r, r2['unit_str']) for d, r in zip(chains, r2['docs'])],
+            lambda k: 'Eval vm_compute in (report (map (check_builder Rfixed core pd version spallation) cases)).\n',
+            shard=60, prefix='searchiso')
+        iso = {fork_fail[m][0]: f2.get(m) for m in range(len(chains))}
+    for i, why in sorted(fails.items()):
+        d, j, ch, o = cases[i]
+        base = why.split(':')[0]
+        if j is not None and not (iso.get(i) or '').startswith(base):
+            key = f'fork:{base}'
+            ctx.violation(key, f'{key}: {FORK_WHAT} [save #{j} of the history: {why}]',
+                          {'doc': d, 'save': j, 'chain': ch, 'reason': why, 'written': o})
+        else:
+            key = failure_key(ch, why, set(), None)
+            ctx.violation(key, f'{key}: the text written by the real package for a sequence of builder calls is not read back '
+                               f'by the independent CIF 1.1 parser as the supplied content [{why}]',
+                          {'doc': ch, 'reason': why, 'written': o})
+        out.append(d)
     return out
 
 
@@ -815,9 +1115,22 @@ def replay(ctx, obj):
         return 0
     res = ctx.run_impl('c14_impl.py', {'docs': [doc], 'units': UNITS, 'facilities': FACILITIES})
     r = res['docs'][0]
-    print('supplied document:', json.dumps(doc, ensure_ascii=True)[:2000])
-    print('the real package', 'wrote:' if 'text' in r else 'raised:')
-    print(r.get('text', f"{r.get('error')}: {r.get('msg')}"))
+    if doc['kind'] == 'fork':
+        print('history over builders with common ancestors (node 0 = CIF(name, comment=comment)):')
+        print(json.dumps(doc, ensure_ascii=True)[:3000])
+        chains = fork_chains(doc)
+        obs = r.get('saves') or []
+        if len(obs) != len(chains):
+            print('the history could not be run:', r)
+            return 1
+        j = rep.get('save', 0)
+        print(f'save #{j}: supplied along the chain of the saved builder:', json.dumps(chains[j], ensure_ascii=True)[:2000])
+        print('the real package', 'wrote:' if 'text' in obs[j] else 'raised:')
+        print(obs[j].get('text', f"{obs[j].get('error')}: {obs[j].get('msg')}"))
+    else:
+        print('supplied document:', json.dumps(doc, ensure_ascii=True)[:2000])
+        print('the real package', 'wrote:' if 'text' in r else 'raised:')
+        print(r.get('text', f"{r.get('error')}: {r.get('msg')}"))
     import shutil
     ctx.prepare_build()
     pre_build(ctx)
@@ -831,16 +1144,20 @@ def replay(ctx, obj):
             print('[note] the quoting rule of this source is not one of the two modelled ones; the repaired rule is the reference')
             break
     if doc['kind'] == 'low':
-        term, foot = clow(doc, r, res['core'], res['pd']), 'report (map (check_case Rimpl core) cases)'
+        terms, foot = [clow(doc, r, res['core'], res['pd'])], 'report (map (check_case Rimpl core) cases)'
+    elif doc['kind'] == 'fork':
+        terms = [cbuilder(ch, o, res['unit_str']) for ch, o in zip(chains, obs)]
+        foot = 'report (map (check_builder Rimpl core pd version spallation) cases)'
     else:
-        term, foot = cbuilder(doc, r, res['unit_str']), 'report (map (check_builder Rimpl core pd version spallation) cases)'
-    fails, errs = ctx.coq_eval_shards(header(res, tie=tie_ok), [term], lambda k: f'Eval vm_compute in ({foot}).\n', prefix='replay')
+        terms, foot = [cbuilder(doc, r, res['unit_str'])], 'report (map (check_builder Rimpl core pd version spallation) cases)'
+    fails, errs = ctx.coq_eval_shards(header(res, tie=tie_ok), terms, lambda k: f'Eval vm_compute in ({foot}).\n', prefix='replay')
     if errs:
         print('Coq evaluation failed:', errs)
         return 2
     if fails:
-        print('required: the independent CIF 1.1 parser returns the supplied content and the text equals the model; '
-              'observed:', fails[0])
+        print('required: the independent CIF 1.1 parser returns the content supplied to the saved builder and the text '
+              'equals the model; observed:', '; '.join(f'save #{k}: {w}' for k, w in sorted(fails.items()))
+              if doc['kind'] == 'fork' else fails[0])
         return 1
     print('required behaviour observed: the text parses back to the supplied content')
     return 0
